@@ -25,7 +25,7 @@ PROPERTY RejectAtomic
 PROPERTY AcceptIffOrder
 CHECK_DEADLOCK FALSE
 '''
-CHK = {'order': True, 'bytes': False, 'read': False}
+CHK = {'order': True, 'bytes': False, 'read': False, 'scope': False}
 
 
 def describe(tr):
